@@ -846,6 +846,137 @@ fn step<'b, T: Elem + Clone + PartialEq>(st: &mut St, l: &mut Live<'b, T>, op: &
     part
 }
 
+fn vals_of<T: Elem>(b: &[T]) -> Vec<u32> {
+    b.iter().map(|e| e.val()).collect()
+}
+
+/// consuming split / merge operations of `BumpBox<[T]>` (C16)
+fn boxed_structural<'b, T: Elem + Clone + PartialEq + 'b>(st: &mut St, r: &Rec, l: Live<'b, T>, lives: &mut Vec<Live<'b, T>>) {
+    let m = l.m.clone();
+    let len = m.len();
+    let Some(bx) = l.v.take_boxed() else { return };
+    let sel = r.b(0) % 7;
+    let i = pick(r.u16(2), len + 2);
+    let what = format!("BumpBox<[{}]> {m:?}: structural op {sel} (index {i})", T::NAME);
+    st.note(|| what.clone());
+    st.ops += 1;
+    st.mixh(0xB0 ^ (sel as u64) << 8 ^ (i as u64) << 16);
+    let ptr0 = bx.as_ptr() as usize;
+    let push = |lives: &mut Vec<Live<'b, T>>, b: BumpBox<'b, [T]>| {
+        let mv = vals_of(&b);
+        lives.push(Live { v: Box::new(KBoxed(b)), m: mv, promised: 1 });
+    };
+    match sel {
+        0 | 1 => {
+            // split_at, then either keep both parts or merge them back
+            let res = catch_unwind(AssertUnwindSafe(|| bx.split_at(i)));
+            match res {
+                Err(_) => {
+                    if i <= len {
+                        st.fail("C16/panic-verdict", format!("{what}: split_at({i}) panicked for len {len}"));
+                    }
+                    st.class("expected_panic");
+                }
+                Ok((a, b)) => {
+                    if i > len {
+                        st.fail("C16/panic-verdict", format!("{what}: split_at({i}) beyond len {len} did not panic"));
+                        return;
+                    }
+                    if vals_of(&a) != m[..i] || vals_of(&b) != m[i..] {
+                        st.fail("C16/partition", format!("{what}: split_at gave {:?} / {:?}", vals_of(&a), vals_of(&b)));
+                        return;
+                    }
+                    st.class("split_at");
+                    match r.b(5) % 3 {
+                        0 => {
+                            push(lives, a);
+                            push(lives, b);
+                        }
+                        1 => {
+                            let merged = catch_unwind(AssertUnwindSafe(|| a.merge(b)));
+                            match merged {
+                                Ok(mb) => {
+                                    if vals_of(&mb) != m || (!T::ZST && !m.is_empty() && mb.as_ptr() as usize != ptr0) {
+                                        st.fail("C16/merge", format!("{what}: merge of adjacent parts gave {:?} at {:#x} (original at {ptr0:#x})", vals_of(&mb), mb.as_ptr() as usize));
+                                    }
+                                    st.class("merged");
+                                    push(lives, mb);
+                                }
+                                Err(p) => st.fail("C16/merge", format!("{what}: merging adjacent parts panicked: {}", panic_message(&p))),
+                            }
+                        }
+                        _ => {
+                            // wrong order: not contiguous (unless a part is empty or T is zero-sized)
+                            let (la, lb) = (a.len(), b.len());
+                            let merged = catch_unwind(AssertUnwindSafe(|| b.merge(a)));
+                            if !T::ZST && la > 0 && lb > 0 {
+                                if let Ok(mb) = merged {
+                                    st.fail("C16/merge", format!("{what}: merging non-adjacent parts (wrong order) did not panic, gave {:?}", vals_of(&mb)));
+                                }
+                                st.class("merge_rejected");
+                            }
+                        }
+                    }
+                }
+            }
+        }
+        2 | 3 => {
+            let first = sel == 2;
+            let res = if first { bx.split_first() } else { bx.split_last() };
+            match res {
+                None => {
+                    if len != 0 {
+                        st.fail("C16/partition", format!("{what}: split_first/last returned None for len {len}"));
+                    }
+                }
+                Some((one, rest)) => {
+                    let (ev, er): (u32, &[u32]) = if first { (m[0], &m[1..]) } else { (m[len - 1], &m[..len - 1]) };
+                    if len == 0 || one.val() != ev || vals_of(&rest) != er {
+                        st.fail("C16/partition", format!("{what}: split_first/last gave {} / {:?}", one.val(), vals_of(&rest)));
+                    }
+                    drop(one);
+                    push(lives, rest);
+                }
+            }
+        }
+        4 | 5 => {
+            let first = sel == 4;
+            let mut bx = bx;
+            let one = if first { bx.split_off_first() } else { bx.split_off_last() };
+            match one {
+                None => {
+                    if len != 0 {
+                        st.fail("C16/partition", format!("{what}: split_off_first/last returned None for len {len}"));
+                    }
+                }
+                Some(o) => {
+                    let (ev, er): (u32, &[u32]) = if first { (m[0], &m[1..]) } else { (m[len - 1], &m[..len - 1]) };
+                    if o.val() != ev || vals_of(&bx) != er {
+                        st.fail("C16/partition", format!("{what}: split_off_first/last gave {} / {:?}", o.val(), vals_of(&bx)));
+                    }
+                }
+            }
+            push(lives, bx);
+        }
+        _ => {
+            let k = 1 + (r.b(4) as u32 % 3);
+            let (t, f) = bx.partition(|e| e.val() % k == 0);
+            let (tv, fv) = (vals_of(&t), vals_of(&f));
+            let mut all: Vec<u32> = tv.iter().chain(fv.iter()).copied().collect();
+            let mut orig = m.clone();
+            all.sort();
+            orig.sort();
+            if all != orig || tv.iter().any(|x| x % k != 0) || fv.iter().any(|x| x % k == 0) {
+                st.fail("C16/partition", format!("{what}: partition by % {k} gave {tv:?} / {fv:?}"));
+            }
+            st.class("partitioned");
+            push(lives, t);
+            push(lives, f);
+        }
+    }
+    check_registry(st, &what);
+}
+
 fn fnv_op(op: &Op) -> u64 {
     bsv_core::runner::fnv(format!("{op:?}").as_bytes())
 }
@@ -975,6 +1106,11 @@ fn run_shared<'a: 'b, 'b, T: Elem + Clone + PartialEq>(st: &mut St, h: &Hdr, a: 
             check_registry(st, &what);
             continue;
         }
+        if (meta == 4 || (st.mix == CMix::C16 && meta == 5)) && lives[which].v.kind() == KindId::Boxed && with_reg(|r| r.panic_at.is_none()) {
+            let l = lives.remove(which);
+            boxed_structural::<T>(st, &r, l, &mut lives);
+            continue;
+        }
         let kind = lives[which].v.kind();
         let len = lives[which].v.len();
         let op = decode_op(&r, len, kind, st.mix, h.plan.enabled, T::ZST);
@@ -1039,6 +1175,260 @@ fn run_shared<'a: 'b, 'b, T: Elem + Clone + PartialEq>(st: &mut St, h: &Hdr, a: 
     }
 }
 
+/// C15 position rules for one exclusive-borrow collection / helper call.
+/// `fin` = (address, bytes, element alignment) of the finalised result; `None` = dropped or unwound without finalising.
+fn c15_positions(st: &mut St, info: &Info, before: &StatsSnap, after: &StatsSnap, what2: &str, fin: Option<(usize, usize, usize)>, zst: bool) {
+    let cur_before = before.current.as_ref().map(|c| c.chunk_start);
+    let idx_before = before.chunks.iter().position(|c| Some(c.chunk_start) == cur_before);
+    let changed_chunk = after.current.as_ref().map(|c| c.chunk_start) != cur_before;
+    if changed_chunk || after.chunks.len() > before.chunks.len() {
+        st.outgrew = true;
+        st.class("outgrew_chunk");
+    }
+    match fin {
+        None => {
+            // dropped / unwound without finalising: nothing moved
+            if let Some(k) = idx_before {
+                for (i, c) in before.chunks[..=k].iter().enumerate() {
+                    if after.chunks.get(i).map(|x| x.pos) != Some(c.pos) {
+                        st.fail("C15/position-moved-without-finalise", format!("{what2}: position of chunk {i} moved {:#x} -> {:x?}", c.pos, after.chunks.get(i).map(|x| x.pos)));
+                    }
+                }
+            }
+            if !changed_chunk && after.allocated != before.allocated {
+                st.fail("C15/position-moved-without-finalise", format!("{what2}: allocated() {} -> {}", before.allocated, after.allocated));
+            }
+            if changed_chunk {
+                // at most a later, still empty chunk became current
+                if let (Some(c), Some(k)) = (after.current.as_ref(), idx_before) {
+                    let idx_after = after.chunks.iter().position(|x| x.chunk_start == c.chunk_start).unwrap_or(0);
+                    let empty = if info.up { c.content_start } else { c.content_end };
+                    if idx_after <= k || c.pos != empty {
+                        st.fail("C15/later-empty-chunk", format!("{what2}: current chunk changed to index {idx_after} (was {k}) with position {:#x} (empty {empty:#x})", c.pos));
+                    }
+                }
+            }
+        }
+        Some((ptr, bytes, ealign)) => {
+            if !zst {
+                if let Some(c) = after.current.as_ref() {
+                    let base = if !changed_chunk { before.current.as_ref().map(|c| c.pos).unwrap_or(0) } else if info.up { c.content_start } else { c.content_end };
+                    let d = if info.up { c.pos.wrapping_sub(base) } else { base.wrapping_sub(c.pos) };
+                    let max = bytes + (ealign - 1) + (info.min_align - 1);
+                    if bytes == 0 {
+                        if d > max {
+                            st.fail("C15/advance-bound", format!("{what2}: empty result advanced the position by {d}"));
+                        }
+                    } else {
+                        if d < bytes || d > max {
+                            st.fail("C15/advance-bound", format!("{what2}: position advanced by {d}, contents need {bytes} (+ at most {} padding)", max - bytes));
+                        }
+                        if ptr < c.content_start || ptr + bytes > c.content_end {
+                            st.fail("C15/result-in-current-chunk", format!("{what2}: result {ptr:#x}+{bytes} outside the current chunk"));
+                        }
+                    }
+                    // earlier chunks untouched
+                    if let Some(k) = idx_before {
+                        let upto = if changed_chunk { k + 1 } else { k };
+                        for (i, cb) in before.chunks[..upto.min(before.chunks.len())].iter().enumerate() {
+                            if after.chunks.get(i).map(|x| x.pos) != Some(cb.pos) {
+                                st.fail("C15/position-moved-without-finalise", format!("{what2}: position of earlier chunk {i} moved"));
+                            }
+                        }
+                    }
+                }
+            }
+            if ealign != info.min_align {
+                st.class("align_differs_from_min");
+            }
+        }
+    }
+}
+
+/// C15: the `*_mut` allocation helpers (always finalise unless the iterator unwinds)
+fn helper_round<'a, T: Elem + Clone + PartialEq + 'a>(st: &mut St, arena: &mut (dyn MutBumpAllocatorCoreScope<'a> + 'a), info: Info, r0: &Rec) {
+    use bump_scope::traits::MutBumpAllocatorTypedScope;
+    let before = probe(&*arena, info.up);
+    let sel = r0.b(4) % 8;
+    let n = match r0.b(5) % 4 {
+        0 => r0.b(6) as usize % 4,
+        1 => r0.b(6) as usize % 40,
+        _ => r0.u16(6) as usize % 900,
+    };
+    let hint = r0.b(8);
+    let try_ = r0.b(9) & 1 == 1;
+    st.ops += 1;
+    st.mixh(0xC15 ^ (sel as u64) << 12 ^ (n as u64) << 16 ^ (hint as u64 % 4) << 40);
+    let fired_before = with_reg(|r| r.fired.is_some());
+    let (what, fin): (String, Option<(usize, usize, usize)>) = match sel {
+        5 | 6 => {
+            let rev = sel == 6;
+            let vals: Vec<u32> = (0..n as u32).map(|i| if T::ZST { 0 } else { i % 7 }).collect();
+            let what = format!("{}alloc_iter_mut{}::<{}>({n} elements, size_hint form {})", if try_ { "try_" } else { "" }, if rev { "_rev" } else { "" }, T::NAME, hint % 4);
+            st.note(|| what.clone());
+            let res = catch_unwind(AssertUnwindSafe(|| {
+                let it = hint_iter::<T>(&vals, hint);
+                match (rev, try_) {
+                    (false, false) => Some(arena.alloc_iter_mut(it)),
+                    (false, true) => arena.try_alloc_iter_mut(it).ok(),
+                    (true, false) => Some(arena.alloc_iter_mut_rev(it)),
+                    (true, true) => arena.try_alloc_iter_mut_rev(it).ok(),
+                }
+            }));
+            match res {
+                Ok(Some(b)) => {
+                    let got = vals_of(&b);
+                    let mut exp = vals.clone();
+                    if rev {
+                        exp.reverse();
+                    }
+                    if got != exp {
+                        st.fail("C15/final-contents", format!("{what}: result {got:?} != {exp:?}"));
+                    }
+                    let fin = if T::ZST { (b.as_ptr() as usize, 0, 1) } else { (b.as_ptr() as usize, got.len() * std::mem::size_of::<T>(), std::mem::align_of::<T>()) };
+                    let r = catch_unwind(AssertUnwindSafe(|| drop(b)));
+                    if let Err(p) = r {
+                        if !p.is::<Marker>() {
+                            st.fail("panic/drop", format!("{what}: dropping the result panicked: {}", panic_message(&p)));
+                        }
+                    }
+                    (what, Some(fin))
+                }
+                Ok(None) => {
+                    if !with_ctx(0, |c| c.exhausted) {
+                        st.fail("C08/unexplained-error", format!("{what}: returned an allocation error without cause"));
+                    }
+                    return;
+                }
+                Err(p) => {
+                    if !p.is::<Marker>() {
+                        st.fail("panic/helper", format!("{what}: panicked: {}", panic_message(&p)));
+                        return;
+                    }
+                    (what, None)
+                }
+            }
+        }
+        4 => {
+            let piece = crate::strings::text(r0, 10, 1 + n % 3);
+            let pushes = r0.b(11) as usize % 10;
+            let cap = r0.b(12) as usize % 48;
+            let how = r0.b(13) % 4;
+            let rep = if r0.b(14) % 3 == 0 { 1 + n % 200 } else { 1 };
+            let what = format!("MutBumpString with_capacity({cap}), {pushes} x push_str({piece:?} x {rep}), finalise {how}");
+            st.note(|| what.clone());
+            let chunk: String = piece.repeat(rep);
+            let mut expect = String::new();
+            let res = catch_unwind(AssertUnwindSafe(|| {
+                let mut ms = bump_scope::MutBumpString::try_with_capacity_in(cap, &mut *arena).ok()?;
+                for _ in 0..pushes {
+                    if try_ {
+                        ms.try_push_str(&chunk).ok()?;
+                    } else {
+                        ms.push_str(&chunk);
+                    }
+                    expect.push_str(&chunk);
+                }
+                Some(match how {
+                    0 => {
+                        drop(ms);
+                        None
+                    }
+                    1 => {
+                        let b = ms.into_boxed_str();
+                        Some((b.as_ptr() as usize, b.as_bytes().to_vec()))
+                    }
+                    2 => {
+                        let b = ms.into_str();
+                        Some((b.as_ptr() as usize, b.as_bytes().to_vec()))
+                    }
+                    _ => {
+                        let c = ms.into_cstr();
+                        Some((c.as_ptr() as usize, c.to_bytes_with_nul().to_vec()))
+                    }
+                })
+            }));
+            match res {
+                Ok(Some(None)) => (what, None),
+                Ok(Some(Some((ptr, bytes)))) => {
+                    let exp: Vec<u8> = if how == 3 {
+                        let mut e: Vec<u8> = expect.bytes().take_while(|b| *b != 0).collect();
+                        e.push(0);
+                        e
+                    } else {
+                        expect.clone().into_bytes()
+                    };
+                    if bytes != exp {
+                        st.fail("C15/final-contents", format!("{what}: result {:?} != {:?}", String::from_utf8_lossy(&bytes), String::from_utf8_lossy(&exp)));
+                    }
+                    (what, Some((ptr, bytes.len(), 1)))
+                }
+                Ok(None) => {
+                    if !with_ctx(0, |c| c.exhausted) {
+                        st.fail("C08/unexplained-error", format!("{what}: returned an allocation error without cause"));
+                    }
+                    return;
+                }
+                Err(p) => {
+                    st.fail("panic/helper", format!("{what}: panicked: {}", panic_message(&p)));
+                    return;
+                }
+            }
+        }
+        _ => {
+            let piece = crate::strings::text(r0, 10, n % 3);
+            let pad = n % 700;
+            let what = format!("alloc_fmt_mut / alloc_cstr_fmt_mut ({piece:?}, width {pad})");
+            st.note(|| what.clone());
+            let expect = format!("{piece}{n}-{piece:>pad$}");
+            let cstr = r0.b(10) & 1 == 1;
+            let res = catch_unwind(AssertUnwindSafe(|| {
+                if cstr {
+                    let c = if try_ { arena.try_alloc_cstr_fmt_mut(format_args!("{piece}{n}-{piece:>pad$}")).ok()? } else { arena.alloc_cstr_fmt_mut(format_args!("{piece}{n}-{piece:>pad$}")) };
+                    Some((c.as_ptr() as usize, c.to_bytes_with_nul().to_vec()))
+                } else {
+                    let b = if try_ { arena.try_alloc_fmt_mut(format_args!("{piece}{n}-{piece:>pad$}")).ok()? } else { arena.alloc_fmt_mut(format_args!("{piece}{n}-{piece:>pad$}")) };
+                    Some((b.as_ptr() as usize, b.as_bytes().to_vec()))
+                }
+            }));
+            match res {
+                Ok(Some((ptr, bytes))) => {
+                    let exp: Vec<u8> = if cstr {
+                        let mut e: Vec<u8> = expect.bytes().take_while(|b| *b != 0).collect();
+                        e.push(0);
+                        e
+                    } else {
+                        expect.clone().into_bytes()
+                    };
+                    if bytes != exp {
+                        st.fail("C15/final-contents", format!("{what}: result {:?} != {:?}", String::from_utf8_lossy(&bytes), String::from_utf8_lossy(&exp)));
+                    }
+                    (what, Some((ptr, bytes.len(), 1)))
+                }
+                Ok(None) => {
+                    if !with_ctx(0, |c| c.exhausted) {
+                        st.fail("C08/unexplained-error", format!("{what}: returned an allocation error without cause"));
+                    }
+                    return;
+                }
+                Err(p) => {
+                    st.fail("panic/helper", format!("{what}: panicked: {}", panic_message(&p)));
+                    return;
+                }
+            }
+        }
+    };
+    let unwound = !fired_before && with_reg(|r| r.fired.is_some());
+    let after = probe(&*arena, info.up);
+    let what2 = format!("{what} (unwound={unwound})");
+    st.class("mut_helper");
+    c15_positions(st, &info, &before, &after, &what2, fin, T::ZST && matches!(sel, 5 | 6));
+    if unwound {
+        st.class("unwound_while_filling");
+    }
+    check_registry(st, &what2);
+}
+
 fn run_mut<'a, T: Elem + Clone + PartialEq>(st: &mut St, h: &Hdr, arena: &mut (dyn MutBumpAllocatorCoreScope<'a> + 'a), info: Info) {
     // one exclusive-borrow vector at a time: create, fill, finalise or drop; repeat
     let mut round = 0;
@@ -1046,6 +1436,10 @@ fn run_mut<'a, T: Elem + Clone + PartialEq>(st: &mut St, h: &Hdr, arena: &mut (d
         round += 1;
         let r0 = Rec(st.recs[st.pos]);
         st.pos += 1;
+        if st.mix == CMix::C15 && r0.b(4) % 8 >= 4 && !h.plan.enabled {
+            helper_round::<T>(st, arena, info, &r0);
+            continue;
+        }
         let rev = (h.first_kind as usize + round) % 2 == 1;
         let before = probe(&*arena, info.up);
         let n_ops = 1 + r0.b(5) as usize % 14;
@@ -1104,75 +1498,16 @@ fn run_mut<'a, T: Elem + Clone + PartialEq>(st: &mut St, h: &Hdr, arena: &mut (d
         // C15: positions
         let after = probe(&*arena, info.up);
         let what2 = format!("{what} (unwound={unwound})");
-        let cur_before = before.current.as_ref().map(|c| c.chunk_start);
-        let idx_before = before.chunks.iter().position(|c| Some(c.chunk_start) == cur_before);
-        let changed_chunk = after.current.as_ref().map(|c| c.chunk_start) != cur_before;
-        if changed_chunk || after.chunks.len() > before.chunks.len() {
-            st.outgrew = true;
-            st.class("outgrew_chunk");
-        }
-        match result {
-            None => {
-                // dropped / unwound without finalising: nothing moved
-                if let Some(k) = idx_before {
-                    for (i, c) in before.chunks[..=k].iter().enumerate() {
-                        if after.chunks.get(i).map(|x| x.pos) != Some(c.pos) {
-                            st.fail("C15/position-moved-without-finalise", format!("{what2}: position of chunk {i} moved {:#x} -> {:x?}", c.pos, after.chunks.get(i).map(|x| x.pos)));
-                        }
-                    }
-                }
-                if !changed_chunk && after.allocated != before.allocated {
-                    st.fail("C15/position-moved-without-finalise", format!("{what2}: allocated() {} -> {}", before.allocated, after.allocated));
-                }
-                if changed_chunk {
-                    // at most a later, still empty chunk became current
-                    if let (Some(c), Some(k)) = (after.current.as_ref(), idx_before) {
-                        let idx_after = after.chunks.iter().position(|x| x.chunk_start == c.chunk_start).unwrap_or(0);
-                        let empty = if info.up { c.content_start } else { c.content_end };
-                        if idx_after <= k || c.pos != empty {
-                            st.fail("C15/later-empty-chunk", format!("{what2}: current chunk changed to index {idx_after} (was {k}) with position {:#x} (empty {empty:#x})", c.pos));
-                        }
-                    }
-                }
-            }
+        let fin = match &result {
+            None => None,
             Some((ptr, got)) => {
-                if got != model_final {
+                if *got != model_final {
                     st.fail("C15/final-contents", format!("{what2}: finalised contents {got:?} != {model_final:?}"));
                 }
-                if !T::ZST {
-                    if let Some(c) = after.current.as_ref() {
-                        let bytes = got.len() * esz;
-                        let base = if !changed_chunk { before.current.as_ref().map(|c| c.pos).unwrap_or(0) } else if info.up { c.content_start } else { c.content_end };
-                        let d = if info.up { c.pos.wrapping_sub(base) } else { base.wrapping_sub(c.pos) };
-                        let max = bytes + (ealign - 1) + (info.min_align - 1);
-                        if got.is_empty() && bytes == 0 {
-                            if d > max {
-                                st.fail("C15/advance-bound", format!("{what2}: empty result advanced the position by {d}"));
-                            }
-                        } else {
-                            if d < bytes || d > max {
-                                st.fail("C15/advance-bound", format!("{what2}: position advanced by {d}, contents need {bytes} (+ at most {} padding)", max - bytes));
-                            }
-                            if ptr < c.content_start || ptr + bytes > c.content_end {
-                                st.fail("C15/result-in-current-chunk", format!("{what2}: result {ptr:#x}+{bytes} outside the current chunk"));
-                            }
-                        }
-                        // earlier chunks untouched
-                        if let Some(k) = idx_before {
-                            let upto = if changed_chunk { k + 1 } else { k };
-                            for (i, cb) in before.chunks[..upto.min(before.chunks.len())].iter().enumerate() {
-                                if after.chunks.get(i).map(|x| x.pos) != Some(cb.pos) {
-                                    st.fail("C15/position-moved-without-finalise", format!("{what2}: position of earlier chunk {i} moved"));
-                                }
-                            }
-                        }
-                    }
-                }
-                if ealign != info.min_align {
-                    st.class("align_differs_from_min");
-                }
+                if T::ZST { Some((*ptr, 0, 1)) } else { Some((*ptr, got.len() * esz, ealign)) }
             }
-        }
+        };
+        c15_positions(st, &info, &before, &after, &what2, fin, T::ZST);
         if unwound {
             st.class("unwound_while_filling");
         }
